@@ -243,7 +243,8 @@ class Run:
                 lines.append(f"  # {e['klass'] or 'unclassified'} x{e['count']}: {e['detail'][:300]}")
             nviol = sum(e["count"] for e in self.viol.values())
         if self.harness_errors:
-            rc = 2
+            # a VIOLATION that was found stays exit 1 (the counterexample is real); a harness error alone is exit 2
+            rc = 2 if rc == 0 else rc
             for he in self.harness_errors[:5]:
                 lines.append(f"HARNESS-ERROR property={self.pid} layer={he['layer']} case={cjson(he['case'])[:300]}\n{he['error']}")
         cov = {
